@@ -25,7 +25,7 @@ class C11(Prop):
     props_file = "Properties/C11.v"
     harness_cmd = None
     needs_bin = True
-    n = {"quick": 1500, "thorough": 30000}
+    n = {"quick": 1500, "thorough": 9000}
     search_seeds = 2
     search_n = 2500
     classes = {"T1": 1, "D1": 2, "D3": 4}
@@ -55,7 +55,9 @@ class C11(Prop):
     def generate(self, wd, seed, n, tier, only):
         probes = [1, 2, 4, 8, 11, 60, 400, 2000] if tier == "quick" else [1, 2, 3, 4, 5, 8, 9, 11, 20, 60, 150, 400, 1000, 2000, 5000]
         nh = n - 2 * len(probes)
-        cmd = [core.HARNESS_BIN, "c11", "--seed", str(seed), "--n", str(nh), "--shards", "16", "--out", wd]
+        # sources are embedded byte by byte: keep shards small (coqc's memory grows with the size of a shard)
+        nshards = 16 if tier == "quick" else 96
+        cmd = [core.HARNESS_BIN, "c11", "--seed", str(seed), "--n", str(nh), "--shards", str(nshards), "--out", wd]
         if tier == "thorough":
             cmd.append("--thorough")
         if only is not None:
@@ -84,6 +86,6 @@ class C11(Prop):
                 items.append(("CProc %s %s" % (cli.gN(depth), cli.gbool(died)),
                               {"kind": "nesting-probe", "std": std, "depth": depth, "exit": rc2, "stderr": err2[-200:],
                                "source": "local x = 1 / `if x then` x %d / print(x) / `end` x %d" % (depth, depth), "nontrivial": True}))
-        cli.write_shards(wd, "C11", items, only=only, offset=nh, first_shard=16)
+        cli.write_shards(wd, "C11", items, only=only, offset=nh, first_shard=nshards)
         shutil.rmtree(proj, ignore_errors=True)
         return True, ""
